@@ -47,6 +47,18 @@ static void obs_db(obs_t& o, djinterop::database& db)
     std::sort(ids.begin(), ids.end()); o.n.push_back((int64_t)ids.size()); for (auto id : ids) o.n.push_back(id);
     o.s.push_back(db.uuid()); o.s.push_back(db.version_name());
 }
+// run parameter "peek": after every operation of the history every live handle is queried (and the answers dropped), so that whatever an
+// implementation keeps per handle or per connection - a cache filled on first use - is filled at EVERY point of the history, not only at the end
+static void peek_all(djinterop::database& db, members_model& m, std::vector<djinterop::crate>& hc, std::vector<djinterop::track>& ht)
+{
+    if (!verif_param("peek")) return;
+    try
+    {
+        for (size_t c = 0; c < hc.size(); ++c) if (m.crate_alive[c] && hc[c].is_valid()) { (void)hc[c].name(); (void)hc[c].parent(); }
+        for (size_t t = 0; t < ht.size(); ++t) if (m.track_alive[t] && ht[t].is_valid()) { (void)ht[t].title(); (void)ht[t].rating(); }
+    }
+    catch (const std::exception&) {}
+}
 template <class Open>
 static void run_reopen(Open open)
 {
@@ -60,6 +72,7 @@ static void run_reopen(Open open)
         {
             uint64_t w = (pre[i / 4] >> (16 * (i % 4))) & 0xffff;
             apply_m(db, m, hc, ht, mop_t{(int)(w & 15), (int)((w >> 4) & 15), (int)((w >> 8) & 15)});
+            peek_all(db, m, hc, ht);
         }
         verif_reach("prefix-built");
         int nsym = (int)verif_param("nsym"); uint64_t kinds = verif_param("kinds");
@@ -84,6 +97,7 @@ static void run_reopen(Open open)
                 }
                 catch (const std::exception&) {}
             }
+            peek_all(db, m, hc, ht);
         }
         verif_reach("history-done");
         // observation through the handles the history holds
